@@ -146,8 +146,8 @@ def rest(ctx: Ctx) -> None:
     r = astq.returns(_norm(cy))
     ctx.check(len(r) == 1 and ast.unparse(r[0].value) == "args[self.index0 % len(args)]", "cycle", "runtime:LoopContext.cycle", "cycle index", "loop.cycle must pick args[index0 % len(args)]", lc.loc(cy))
     ch = lc.methods["changed"]
-    s = ast.unparse(ch)
-    ctx.check("self._last_changed_value != value" in s and "self._last_changed_value = value" in s, "changed", "runtime:LoopContext.changed", "changed protocol", "loop.changed must compare with and then store the last value", lc.loc(ch))
+    s = ast.unparse(_norm(ch))  # a local naming the previous value is inlined; `!=` is `==` with the branches swapped
+    ctx.check(("self._last_changed_value != value" in s or "self._last_changed_value == value" in s) and "self._last_changed_value = value" in s, "changed", "runtime:LoopContext.changed", "changed protocol", "loop.changed must compare with and then store the last value", lc.loc(ch))
 
     ctx.rule("R4", "look-ahead protocol: only length / _peek_next / __next__ read the iterator; __next__ takes the buffered look-ahead item first, then advances index0 and shifts previtem <- current <- item; _peek_next caches one item")
     for cls, nxt in ((lc, "__next__"), (ac, "__anext__")):
@@ -181,8 +181,8 @@ def rest(ctx: Ctx) -> None:
         cached = bool(reads) and all(("self._after is missing", True) in astq.guard_atoms(pk, r_) for r_ in reads) and all(ast.unparse(r_.value) == "self._after" for r_ in astq.returns(pk))
         ctx.check(cached, f"{cls.name}._peek_next:cache", f"runtime:{cls.name}._peek_next", "cached look-ahead", "_peek_next must return the cached look-ahead item without touching the iterator again (the iterator is read only while self._after is missing; every return is self._after)", cls.loc(pk))
     pv = lc.methods["previtem"]
-    s = ast.unparse(pv)
-    ctx.check("if self.first:" in s and "return self._before" in s, "previtem", "runtime:LoopContext.previtem", "previtem", "previtem must be undefined on the first iteration and _before afterwards", lc.loc(pv))
+    pv_rets = {ast.unparse(r_.value): astq.guard_atoms(pv, r_) for r_ in astq.returns(pv) if r_.value is not None}
+    ctx.check(("self.first", False) in pv_rets.get("self._before", []) and any(("self.first", True) in g_ and "_undefined(" in v_ for v_, g_ in pv_rets.items()), "previtem", "runtime:LoopContext.previtem", "previtem", "previtem must be undefined on the first iteration and _before afterwards", lc.loc(pv))
 
     ctx.rule("R2", "(skeletons) the loop context is constructed as [Async]LoopContext(<iter>, undefined[, loop_render_func, depth]) - matching LoopContext.__init__(iterable, undefined, recurse, depth0) - exactly for extended loops")
     init = repo.func("runtime:LoopContext.__init__")
